@@ -553,6 +553,10 @@ def getattrC (rec : PVal) (obj : PVal) (a : String) : Option PVal :=
     else if wlComplete (parts ++ [a]) || wlPrefix (parts ++ [a]) then some (.tmatch (parts ++ [a]) [])
     else some .missing
   | .missing => let _ := rec; none
+  | .ftype path =>
+    -- attribute access on the `net` package object (compiled engine): the whitelisted constructor paths
+    let full := if path.isEmpty then a else path ++ "." ++ a
+    if wlComplete (splitDot full) || wlPrefix (splitDot full) then some (.ftype full) else none
   | v => valueAttr v a
 
 /-- `getattr(DynamicFieldtypeModule(path), part)` -/
